@@ -9,11 +9,17 @@ CFG = dict(
                "refuted twin for a dangling edge; (callgrind) for ALL graphs the reference "
                "reader follows the printCallgrind model line by line: no undefined/redefined (n), every reference resolves to the intended "
                "name, node and callee positions decode (callgrind_reads_back) outside F11, and the written TEXT parses back to those lines "
-               "(callgrind_text_reads_back, outside F20), with refuted twins F11/F20. Models tied to the code by "
+               "(callgrind_text_reads_back, outside F20), with refuted twins F11/F20. END-TO-END: the same inputs go through driver.PProf (flags, Fetcher, -base/-diff_base, tagroot/tagleaf, filters, trimming, Writer), "
+               "interactive sessions and the -http handlers, and what is printed is judged by the same recogniser / reader; the call-tree "
+               "trimming primitive is modelled (M_Trim.v) with trim_tree_closed / trim_twice_closed (surviving edges join kept nodes when every "
+               "node was listed) and the refuted twin for nodes only taken off the list. Models tied to the code by "
                "byte-level correspondence on ~1.7k cases per quick run, and the recogniser / reader are evaluated on the text the implementation wrote.",
     level_note="HTML views are partial: html/template and encoding/json are trusted, the harness fetches /top /flamegraph /peek /source through "
                "httptest and counts raw payload markers. F11 rests on the stated reading of the Callgrind manual (positions are relative to the last cost line).",
-    rule="inputs: (esc) strings over an alphabet of DOT/callgrind/HTML metacharacters; (dot) graphs handed to ComposeDot -- synthetic ones "
+    rule="end-to-end streams: deterministic grids (call tree with nodes below the cut-off x call_tree x nodecount x granularity; "
+         "-diff_base/-base against a bigger base x 6 option sets x dot/callgrind; two fixed interactive histories), random option combinations "
+         "(1..4 of 31 options) and random session histories on profiles with 8..20 functions, web requests with option parameters; TrimTree on "
+         "random forests with random listed orders / kept sets. Other inputs: (esc) strings over an alphabet of DOT/callgrind/HTML metacharacters; (dot) graphs handed to ComposeDot -- synthetic ones "
          "(names, tags, attributes, extreme weights) and those report.GetDOT builds from generated profiles under call_tree / drop_negative / "
          "trimming / functions|lines|files|addresses|filefunctions, incl. diff-like profiles whose nodes net to zero; (cg) the graph "
          "printCallgrind walks for generated profiles, plus profiles whose locations come from a pool of special addresses (0 / no mapping "
